@@ -40,8 +40,8 @@ func init() {
 	props["C02"] = &propCfg{Engine: "E1", Level: "exploration", QuickRuns: 3112, ThoroughMax: 4_000_000, RealStub: e1RealStub,
 		Rule:        "the matrix (16 failure kinds (incl. Error()/Errorf(\"\") with an empty message) x 8 callback contexts x 8 positions in the run (incl. 'signal, then a Skip raised from a cleanup'), minus impossible combinations = 778 cells) is enumerated over run indices (three of every four run indices walk through the 778 cells in order, so a quick run of 3112 indices visits every cell 3 times; the fourth index runs a generated program - non-fatal signals followed by Custom draws, state machines, cleanups, skips - under the same conservation oracle); seed, checks, steps, clock policy and k are sampled around each cell; non-trivial = the signal actually fired; distinct by hash(cell, k, seed, checks)",
 		SimTimeNote: "sum of fake-clock advance inside synctest bubbles"}
-	props["C05"] = &propCfg{Engine: "E1", Level: "exploration", QuickRuns: 1200, ThoroughMax: 4_000_000, RealStub: e1RealStub,
-		Rule:        "one run = one tape: a generated program with 2-4 distinct failure sites (fatal at distinct call stacks, panics, runtime errors, the non-fatal site) and overlapping conditions, run once with a FROZEN clock (minimization must terminate by itself) and 1-3 more times with the clock cut (CUT(k,delta) with k uniform over the frozen run's history, or DRIP); non-trivial = the frozen run accepted at least one minimization step; distinct by hash(program text, rapid seed, checks)",
+	props["C05"] = &propCfg{Engine: "E1", Level: "exploration", QuickRuns: 1600, ThoroughMax: 4_000_000, RealStub: e1RealStub,
+		Rule:        "one run = one tape: a generated program (35%: a template - collections of filtered elements with thresholds on sum and length at distinct sites) with 2-4 distinct failure sites (fatal at distinct call stacks, panics, runtime errors, the non-fatal site) and overlapping conditions, run once with a FROZEN clock (minimization must terminate by itself) and 1-3 more times with the clock cut (CUT(k,delta) with k uniform over the frozen run's history, or DRIP); non-trivial = the frozen run accepted at least one minimization step; distinct by hash(program text, rapid seed, checks)",
 		SimTimeNote: "sum of fake-clock advance inside synctest bubbles"}
 	props["C07"] = &propCfg{Engine: "E1", Level: "exploration", QuickRuns: 1500, ThoroughMax: 4_000_000, RealStub: e1RealStub,
 		Rule:        "one run = one tape: a generated failing program gated by a selector draw with tape-chosen acceptance probability (so the first falsified case lands at indices 0..checks-1), executed twice under identical simulated time (fresh bubbles, fresh directories) and once more with the printed seed; non-trivial = the run failed; distinct by hash(program text, seed, checks, clock policy)",
